@@ -798,6 +798,23 @@ func (ex *Executor) evalCallSpec(e *SExpr, env *SpecEnv) (Val, error) {
 			return Val{}, err
 		}
 		return specBool(Select(Select(env.heapArr("M.dom", SAAIB), m.T), k.T)), nil
+	case "strbyte":
+		a, err := argv(0)
+		if err != nil {
+			return Val{}, err
+		}
+		i, err := argv(1)
+		if err != nil {
+			return Val{}, err
+		}
+		return ex.strByte(env.st, a.T, i.T), nil
+	case "backing":
+		// the backing array of a slice (a reference)
+		a, err := argv(0)
+		if err != nil {
+			return Val{}, err
+		}
+		return specInt(ex.sarr(a.T)), nil
 	case "substr":
 		// s[lo:hi] of a string
 		a, err := argv(0)
@@ -841,7 +858,11 @@ func (ex *Executor) evalCallSpec(e *SExpr, env *SpecEnv) (Val, error) {
 		return specInt(strLen(a.T)), nil
 	}
 	// predicates
-	if p, ok := ex.S.Preds[e.Name]; ok {
+	p, ok := ex.S.Preds[env.pkgRel+"::"+e.Name] // predicates are scoped to the package of their contract file
+	if !ok {
+		p, ok = ex.S.Preds[e.Name]
+	}
+	if ok {
 		if len(p.Params) != len(e.Args) {
 			return Val{}, fmt.Errorf("predicate %s: arity", e.Name)
 		}
